@@ -24,7 +24,7 @@ FINISH = dict(
 
 
 def main(run):
-    env.setup()
+    env.setup(pyx=True)
     from contracts import isobits, query as Q
     import chython.algorithms.isomorphism as iso
     for k, t in isobits.region_texts().items():
